@@ -24,7 +24,7 @@ CLAIMED = {
   tech="deterministic simulation: seeded operation histories with injected failed loads (storage-damaged texts), checked against a batch reference execution after every step"),
  "C01": dict(
   text="Seeded exploration of the history / fault part of crash-freedom: generated (incl. deliberately cyclic, dangling, colliding) module sets and the repository's testdata on a simulated disk with storage faults (lost, unreadable, vanished, short, torn, bit-flipped, garbage, duplicated block, stale content, unreadable directory), histories of Parse/Read/GetModule/Process/queries incl. incomplete sets and re-Process, under seeded map order, with simulated time (tick budget) and call-depth bounds standing in for hang and stack overflow. Crash-freedom over all byte strings is NOT claimed (pure-function fuzzing claim).",
-  note="Trusted: tick/depth budgets have >= 50x headroom over measured need; a process-killing fault (fatal error) is attributed by the RUN protocol and confirmed in a fresh process. Queries are issued only after a clean Process (API contract).",
+  note="Trusted: tick/depth budgets have >= 50x headroom over measured need; a process-killing fault (fatal error) is attributed by the RUN protocol and confirmed in a fresh process. Queries are issued after a Process (a clean one, or in half of the cases one that returned errors), never after a load that has not been processed (API contract).",
   ref="DESIGN.md §4 C01",
   tech="deterministic simulation: simulated disk with seeded fault plan + seeded operation histories + tick/depth budget as simulated time; oracle = every call returns"),
  "C04": dict(
@@ -59,7 +59,7 @@ CLAIMED = {
   tech="deterministic simulation: enumerated/seeded load orders, simulated disk with near-miss names and faults observed at the disk seam, split-vs-unsplit metamorphic runs under seeded schedules"),
  "C19": dict(
   text="Seeded search over interleavings of real caller goroutines running the -race built, instrumented library: (K1) 2-4 independent load+Process+dump pipelines, (K2) 2-6 readers of one processed set issuing the read operations the property lists, incl. simultaneous first-time namespace lookups. The simulated scheduler decides who proceeds at every lock acquisition/release and, with seeded probability, at every function entry and loop head; a task may be descheduled while holding a lock. Oracles: Go race detector (exit 66, attributed by the RUN protocol, confirmed in a fresh process), per-operation equality with the sequential result, bounded progress. Sampling of schedules, not proof.",
-  note="Trusted: the scheduler adds no happens-before edge (plain variables in //go:norace code + runtime.Gosched under GOMAXPROCS=1; probe 1 in DESIGN.md appendix A); the race detector's bounded history can miss a race in one schedule, never invent one; stdlib-internal synchronisation (sync.Pool in fmt) can hide a race, so Print is confined to a separate mix. Lookups of missing nodes are excluded (they write an error into the tree; the property speaks of existing nodes).",
+  note="Trusted: the scheduler adds no happens-before edge (plain variables in //go:norace code + runtime.Gosched under GOMAXPROCS=1; probe 1 in DESIGN.md appendix A); the race detector's bounded history can miss a race in one schedule, never invent one; sync.Pool's release/acquire annotations (fmt's buffer pool) hid races at random, so the -race harness is built with an overlay of sync/pool.go in which Put drops every object (within Pool's contract); process-wide state is kept cold (worker processes replaced every 20 runs, sequential expectation computed after the concurrent phase). Lookups of missing nodes are excluded (they write an error into the tree; the property speaks of existing nodes).",
   ref="DESIGN.md §4 C19",
   tech="deterministic simulation: seeded turn-based scheduler over real goroutines at AST-inserted lock/tick yield points, Go race detector as happens-before oracle, sequential results as reference"),
 }
